@@ -114,7 +114,7 @@ SCENARIOS = [
     ("extensions-info-unknown-id", {}, ["extensions", "info", "no-such-extension"], None),
 ] + _mix_scenarios()
 
-SCHEME_VIA = ["arg", "set", "config-file", "none"]
+SCHEME_VIA = ("arg", "set", "config-file", "none", "arg-over-config", "arg-over-set", "set-over-config", "config-over-default-file")
 
 
 def universe_hash():
@@ -154,7 +154,7 @@ def plan(tier, seed, complete=False):
         "zones": {"scenario x scheme x selection": {"universe": len(cs), "run": len(idx)}, "scenarios": {"count": len(SCENARIOS)}},
         "exhaustive": bool(complete or tier == "thorough"),
         "rule": "scenario table (every way to reach each outcome category, incl. 3-file mixtures in each order, scan/fix, with/without --continue-on-error) x scheme "
-        "{default, minimal} x scheme chosen by {argument, --set, configuration file, not at all}; distinct = distinct (scenario, scheme)",
+        "{default, minimal} x scheme chosen by {argument, --set, configuration file, not at all, and four pairs of sources that disagree}; distinct = distinct (scenario, scheme)",
     }
 
 
@@ -213,6 +213,21 @@ def scheme_args(sb, scheme, via):
     if via == "set":
         return ["--set", f"mode.return_code_scheme={scheme}"]
     if via == "config-file":
+        sb.write("scheme.json", json.dumps({"mode": {"return_code_scheme": scheme}}))
+        return ["--config", "scheme.json"]
+    # two sources that disagree: the more specific one (documented order: argument, --set, --config file,
+    # default configuration file) decides
+    other = "minimal" if scheme == "default" else "default"
+    if via == "arg-over-config":
+        sb.write("scheme.json", json.dumps({"mode": {"return_code_scheme": other}}))
+        return ["--return-code-scheme", scheme, "--config", "scheme.json"]
+    if via == "arg-over-set":
+        return ["--set", f"mode.return_code_scheme={other}", "--return-code-scheme", scheme]
+    if via == "set-over-config":
+        sb.write("scheme.json", json.dumps({"mode": {"return_code_scheme": other}}))
+        return ["--config", "scheme.json", "--set", f"mode.return_code_scheme={scheme}"]
+    if via == "config-over-default-file":
+        sb.write(".pymarkdown", json.dumps({"mode": {"return_code_scheme": other}}))
         sb.write("scheme.json", json.dumps({"mode": {"return_code_scheme": scheme}}))
         return ["--config", "scheme.json"]
     return []
